@@ -505,7 +505,8 @@ func main() {
 			"the pipeline worker's handlers (onInput, onTick) run on the harness goroutine through a test-only accessor so that a panic is attributed to its input; their code is the repository's",
 			"an agent core (receiver, orchestrator, pipelines) serves up to 128 consecutive cases and its flush tick fires every 32 cases; everything found that way is re-run alone on a fresh core and that verdict is reported " +
 				"(a finding that needs the earlier cases gets the prefix after-earlier-input:); a replay always runs the case alone on a fresh core",
-			"defs.IntermediateFlushInterval is set to 0 so that every periodic flush finds its interval elapsed (no wall clock in the oracle)",
+			"defs.IntermediateFlushInterval is set to 0 so that every periodic flush finds its interval elapsed (no wall clock in the oracle); defs.IntermediateBufferedChannelSize is raised from 1 to 16 because the harness goroutine " +
+				"serves the pipelines' input channels between the steps of a case instead of concurrently (a send must never wait for a receiver that runs later)",
 			"grammar used by the oracle (DESIGN A.2): must-reject = no leading '<', first token not ending in '>1', fewer than six header tokens after the PRI; must-accept = PRI 1-3 digits <= 191, six non-empty header tokens of " +
 				"printable ASCII, header within 256 bytes (InputLogMaxRecordBytes - InputLogMaxMessageBytes), total length >= 32; everything else (other PRI spellings, empty or non-ASCII tokens, no message part, shorter than 32, longer header) may be rejected or accepted",
 			"a label value that is not valid UTF-8 makes the Prometheus registry of the pipelines unreadable (Gather fails) without any panic; pipeline-level counters are then not compared (delivery still is); counted in the evidence notes - a C19 matter",
